@@ -136,6 +136,10 @@ def run(ctx):
     histcheck.run(ctx, MODULE, WEIGHTS, TAGS, lean_extra=EXTRA,
                   release_quick_filter=lambda h: any(op.split()[0] in ('writeSlot',) for op in h))
     class_sweep(ctx)
+    # the last handle of an uninit-built allocation is released while the header's / an element's destructor panics: the header
+    # is still destroyed exactly once, the elements (after assume_init) each once, "together with the allocation"
+    from vlib.props import c05
+    c05.drop_panic_pass(ctx, "C15", paths=c05.UNINIT_DP_PATHS)
     # the deprecated write against a reader that has just released its handle: the uniqueness check inside the call is
     # the only synchronisation (dev and release profile: a debug assertion re-loads the count with Acquire)
     from vlib import miri
